@@ -267,7 +267,7 @@ func (c *Ctx) RecoverSites() []*recoverSite {
 
 // reviewedRecoverHandlers: hazards without a known failing input (frozen by reading + reason).
 var reviewedRecoverHandlers = map[string]string{
-	"PANIC/P3:(*check/compiler/parser.Parser).BeginAnalyze:swallow-all":          "the handler would turn an internal fault into an ordinary (possibly clean) result, but the only internal fault known on this tree (`x[=` at end of input: slice out of range in scanLongString) happens after a syntax error has been recorded, so the file is still reported invalid; 30 minutes of coverage-guided fuzzing of parseBlock (65 M inputs) found no fault with an empty error list. Reported as a hazard, not as a defect.",
+	"PANIC/P3:(*check/compiler/parser.Parser).BeginAnalyze:swallow-all":          "the handler would turn an internal fault into an ordinary (possibly clean) result. The one internal fault known on the tree as received (`x[=` at end of input: slice out of range in scanLongString) is repaired (9a44244) and BND/cursor-in-input now proves that no index, slice bound or advance of the lexer leaves its input; 30 minutes of coverage-guided fuzzing of parseBlock (65 M inputs) during triage found no other fault. Faults outside the lexer's input accesses (nil dereference, other slices) would still be swallowed: reported as a hazard, not as a defect.",
 	"PANIC/P3:check/annotation/annotateparser.ParserLine:single-value-assertion": "a foreign payload would re-panic inside the deferred function, but no runtime fault is known inside the recovered region on this tree (every slice/index in annotatelexer is length-guarded; 20 minutes of coverage-guided fuzzing of parserOneState at design time found none). Reported as a hazard, not as a defect.",
 }
 
